@@ -112,7 +112,7 @@ Proof. intros H. exact (proj2 (mrgn_decode_locs_indices L _ _ _ H)). Qed.
 
 (* ---- and the slot itself, read back by a later load: the location with the authored rectangle, name and elevation flags,
         carrying the slot's number ------------------------------------------------------------------------------------------------ *)
-From RC Require Import model.Flags proofs.Flags_proofs proofs.C12_proofs proofs.C04_readback gen.GenFlags.
+From RC Require Import model.Flags proofs.Flags_proofs proofs.C12_proofs proofs.C04_readback proofs.Save_refs gen.GenFlags.
 
 Theorem an_emitted_location_slot_reads_back L l slot i0 :
   loc_encode L l = Ok slot -> length (l_elev l) = 6%nat -> N.of_nat (length (sl_by_id L)) <= 1000000 ->
@@ -133,4 +133,101 @@ Proof.
   unfold flags_to in Hfl. unfold flags_of.
   destruct (elevation_flags_rich (l_elev l) Hlen) as (x0 & E0 & _ & D0). rewrite E0 in Hfl. inversion Hfl; subst x0.
   rewrite D0. cbn [bind]. unfold rich_of_bools. rewrite map_snd_combine; [reflexivity|]. rewrite map_length, Hlen. reflexivity.
+Qed.
+
+(* ---- the whole emitted table, read back: slot by slot, the list a later load decodes holds at number k+1 exactly what slot k
+        decodes to on its own ------------------------------------------------------------------------------------------------------ *)
+
+Lemma mrgn_decode_cons L s r i0 :
+  mrgn_decode_locs L (s :: r) i0 =
+  (do rest <- mrgn_decode_locs L r (i0 + 1); do hd <- mrgn_decode_locs L [s] i0; Ok (hd ++ rest)).
+Proof.
+  cbn [mrgn_decode_locs]. destruct (mrgn_decode_locs L r (i0 + 1)) as [rest|e]; [|reflexivity]. cbn [bind].
+  destruct (loc_is_unused s); [reflexivity|].
+  destruct (flags_of elevation_flags_codec (vint "_elevation_flags" s)); reflexivity.
+Qed.
+
+Lemma single_slot_indices L s i0 p : mrgn_decode_locs L [s] i0 = Ok p -> forall j, In j (map fst (by_idx p)) -> j = i0 + 1.
+Proof.
+  cbn [mrgn_decode_locs bind]. destruct (loc_is_unused s); intros H j Hj.
+  - inversion H; subst p. destruct Hj.
+  - inv_bind H as el Hel Hk. inversion Hk; subst p. unfold by_idx in Hj. cbn in Hj. destruct Hj as [<-|[]]. reflexivity.
+Qed.
+
+Theorem emitted_location_table_reads_back_slotwise L : forall slots i0,
+  (forall k s, nth_error slots k = Some s -> exists p, mrgn_decode_locs L [s] (i0 + N.of_nat k) = Ok p) ->
+  exists ls', mrgn_decode_locs L slots i0 = Ok ls' /\
+    forall k s p, nth_error slots k = Some s -> mrgn_decode_locs L [s] (i0 + N.of_nat k) = Ok p ->
+      assocN_last (i0 + N.of_nat k + 1) (by_idx ls') = assocN_last (i0 + N.of_nat k + 1) (by_idx p).
+Proof.
+  induction slots as [|s r IH]; intros i0 Hall.
+  - exists []. split; [reflexivity|]. intros k s p Hk. destruct k; discriminate.
+  - destruct (Hall 0%nat s eq_refl) as [p0 Hp0]. rewrite N.add_0_r in Hp0.
+    destruct (IH (i0 + 1)) as (rest & Hrest & Hslots).
+    { intros k s' Hk. destruct (Hall (S k) s' Hk) as [p Hp]. exists p.
+      replace (i0 + 1 + N.of_nat k) with (i0 + N.of_nat (S k)) by lia. exact Hp. }
+    exists (p0 ++ rest). split; [rewrite mrgn_decode_cons, Hrest; cbn [bind]; rewrite Hp0; reflexivity|].
+    destruct (mrgn_decode_locs_indices L _ _ _ Hrest) as [Hgt _].
+    intros k s' p Hk Hp. rewrite by_idx_app, assocN_last_app.
+    destruct k as [|k]; cbn [nth_error] in Hk.
+    + inversion Hk; subst s'. rewrite N.add_0_r in Hp. rewrite Hp0 in Hp. inversion Hp; subst p. rewrite N.add_0_r.
+      rewrite (assocN_last_none (i0 + 1) (by_idx rest)); [reflexivity|].
+      intros Hc. specialize (Hgt _ Hc). lia.
+    + replace (i0 + N.of_nat (S k) + 1) with (i0 + 1 + N.of_nat k + 1) by lia.
+      replace (i0 + N.of_nat (S k)) with (i0 + 1 + N.of_nat k) in Hp by lia.
+      rewrite (Hslots k s' p Hk Hp).
+      destruct (assocN_last (i0 + 1 + N.of_nat k + 1) (by_idx p)) as [x|] eqn:E; [reflexivity|].
+      apply assocN_last_none. intros Hc. pose proof (single_slot_indices L s i0 p0 Hp0 _ Hc). lia.
+Qed.
+
+Lemma by_idx_in ls l i : In l ls -> l_idx l = Some i -> In (i, l) (by_idx ls).
+Proof. intros Hin Hi. unfold by_idx. apply in_flat_map. exists l. split; [exact Hin|]. rewrite Hi. left. reflexivity. Qed.
+
+Lemma by_idx_member ls i l : In (i, l) (by_idx ls) -> In l ls.
+Proof.
+  unfold by_idx. intros H. apply in_flat_map in H as (l0 & Hl0 & Hin). destruct (l_idx l0); [|destruct Hin].
+  destruct Hin as [Heq|[]]. inversion Heq; subst. exact Hl0.
+Qed.
+
+(* the table a save emits, decoded again by a later load: it decodes, and at every number whose slot is not all zero the load
+   finds the location that was written there - rectangle, name and elevation flags - carrying that number *)
+Theorem saved_location_table_reads_back L ls v :
+  N.of_nat (length (sl_by_id L)) <= 1000000 -> mrgn_encode L ls = Ok v ->
+  (forall l, In l ls -> length (l_elev l) = 6%nat) ->
+  exists ls', mrgn_decode L v = Ok ls' /\
+    forall k l slot, assocN_last (N.of_nat k + 1) (by_idx ls) = Some l ->
+      nth_error (vlist "_locations" v) k = Some slot -> loc_is_unused slot = false ->
+      assocN_last (N.of_nat k + 1) (by_idx ls') =
+        Some {| l_x1 := l_x1 l; l_y1 := l_y1 l; l_x2 := l_x2 l; l_y2 := l_y2 l; l_name := l_name l;
+                l_idx := Some (N.of_nat k + 1); l_elev := l_elev l; l_oid := 0 |}.
+Proof.
+  intros Hsmall H Helev. unfold mrgn_encode in H. cbv zeta in H. fold (by_idx ls) in H. inv_bind H as slots Hs Hk.
+  match type of Hk with Ok ?q = Ok _ => assert (v = q) as -> by congruence end. clear Hk.
+  unfold mrgn_decode. change (vlist "_locations" (mk_struct [("_locations", VList slots)])) with slots.
+  pose proof (mapM_length _ _ _ Hs) as Hlen. rewrite map_length, seq_length in Hlen.
+  (* what slot k is *)
+  assert (forall k s, nth_error slots k = Some s ->
+            match assocN_last (N.of_nat k + 1) (by_idx ls) with
+            | Some l => loc_encode L l = Ok s
+            | None => s = empty_loc_val
+            end) as Hslot.
+  { intros k s Hk. assert (k < N.to_nat MRGN_TRANSCODER_MAX_LOCATIONS)%nat as Hlt by (rewrite <- Hlen; apply nth_error_Some; congruence).
+    assert (nth_error (map N.of_nat (seq 0 (N.to_nat MRGN_TRANSCODER_MAX_LOCATIONS))) k = Some (N.of_nat k)) as Hseq
+      by (rewrite nth_error_map, nth_error_seq_lt by exact Hlt; reflexivity).
+    destruct (mapM_nth _ _ _ _ _ Hs Hseq) as (b & Hb & Hnb). rewrite Hk in Hnb. inversion Hnb; subst b. cbv beta in Hb.
+    destruct (assocN_last (N.of_nat k + 1) (by_idx ls)); [exact Hb | inversion Hb; reflexivity]. }
+  destruct (emitted_location_table_reads_back_slotwise L slots 0) as (ls' & Hdec & Hpieces).
+  { intros k s Hk. specialize (Hslot k s Hk). rewrite N.add_0_l.
+    destruct (assocN_last (N.of_nat k + 1) (by_idx ls)) as [l|] eqn:El.
+    - destruct (loc_is_unused s) eqn:Eu.
+      + exists []. cbn [mrgn_decode_locs bind]. rewrite Eu. reflexivity.
+      + eexists. apply (an_emitted_location_slot_reads_back L l s (N.of_nat k) Hslot); [|exact Hsmall|exact Eu].
+        apply Helev. eapply by_idx_member. eapply assocN_last_in. exact El.
+    - subst s. exists []. reflexivity. }
+  exists ls'. split; [exact Hdec|].
+  intros k l slot El Hk Hu. pose proof (Hslot k slot Hk) as Hs'. rewrite El in Hs'.
+  assert (length (l_elev l) = 6%nat) as Hl by (apply Helev; eapply by_idx_member; eapply assocN_last_in; exact El).
+  pose proof (an_emitted_location_slot_reads_back L l slot (N.of_nat k) Hs' Hl Hsmall Hu) as Hone.
+  match type of Hone with _ = Ok ?pp => pose proof (Hpieces k slot pp Hk) as Hp end. rewrite !N.add_0_l in Hp. rewrite (Hp Hone).
+  unfold by_idx. cbn [flat_map l_idx app assocN_last]. rewrite N.eqb_refl. reflexivity.
 Qed.
